@@ -36,7 +36,8 @@ import (
 	"verifharness/core"
 )
 
-const poolSize = 200
+// one real ed25519 key per validator, up to MaxVotesCount validators (+ strangers)
+const poolSize = types.MaxVotesCount + 16
 
 var (
 	pool     [poolSize]crypto.PrivKey
@@ -147,14 +148,14 @@ type desc struct {
 }
 
 func (d desc) String() string {
-	if d.tag == "J" || d.tag == "E" || d.tag == "S" {
+	if d.tag == "J" || d.tag == "E" || d.tag == "S" || d.tag == "L" {
 		return d.tag
 	}
 	return fmt.Sprintf("%s~%d~%s~%d~%d~%d~%s~%d", d.tag, d.key, chainTok(d.chain), d.typ, d.h, d.r, d.b.tilde(), d.ts)
 }
 
 func parseDesc(s string) (desc, bool) {
-	if s == "J" || s == "E" || s == "S" {
+	if s == "J" || s == "E" || s == "S" || s == "L" {
 		return desc{tag: s}, true
 	}
 	f := strings.Split(s, "~")
@@ -192,6 +193,8 @@ func sigBytes(d desc) []byte {
 		return nil
 	case "S":
 		return bytes.Repeat([]byte{0x5a}, 10)
+	case "L":
+		return bytes.Repeat([]byte{0x5a}, 65)
 	}
 	k := d.String()
 	if v, ok := sigCache.Load(k); ok {
@@ -321,6 +324,69 @@ func classify(err error) string {
 	return "err-other:" + strings.ReplaceAll(s, " ", "_")
 }
 
+var reInvalidVal = regexp.MustCompile(`invalid validator #(\d+): `)
+
+func valErrKind(s string) string {
+	switch {
+	case strings.Contains(s, "negative voting power"):
+		return "negative-power"
+	case strings.Contains(s, "address is the wrong size"):
+		return "address-size"
+	}
+	return "other:" + strings.ReplaceAll(s, " ", "_")
+}
+
+// classifySetErr maps ValidatorSetFromProto's errors (and the recovered panic) to the model's kinds
+func classifySetErr(err error) string {
+	s := err.Error()
+	switch {
+	case strings.Contains(s, "Total voting power should be guarded"):
+		return "panic-total"
+	case strings.Contains(s, "proposer error: nil validator"):
+		return "nil-proposer"
+	case strings.Contains(s, "validator set is nil or empty"):
+		return "empty"
+	case reInvalidVal.MatchString(s):
+		return "validator(" + reInvalidVal.FindStringSubmatch(s)[1] + "," + valErrKind(s) + ")"
+	case strings.Contains(s, "proposer failed validate basic"):
+		return "proposer(" + valErrKind(s) + ")"
+	}
+	return "other:" + strings.ReplaceAll(s, " ", "_")
+}
+
+// classifyCommitErr maps CommitFromProto / Commit.ValidateBasic errors to the model's kinds
+func classifyCommitErr(err error) string {
+	s := err.Error()
+	sig := func(k string) string { return "sig(" + k + ")" }
+	switch {
+	case strings.Contains(s, "unknown BlockIDFlag"):
+		return sig("unknown-flag")
+	case strings.Contains(s, "validator address is present"):
+		return sig("absent-address")
+	case strings.Contains(s, "time is present"):
+		return sig("absent-time")
+	case strings.Contains(s, "signature is present"):
+		return sig("absent-signature")
+	case strings.Contains(s, "expected ValidatorAddress size"):
+		return sig("address-size")
+	case strings.Contains(s, "signature is missing"):
+		return sig("signature-missing")
+	case strings.Contains(s, "signature is too big"):
+		return sig("signature-too-big")
+	case strings.Contains(s, "negative Height"):
+		return "negative-height"
+	case strings.Contains(s, "negative Round"):
+		return "negative-round"
+	case strings.Contains(s, "commit cannot be for nil block"):
+		return "nil-block"
+	case strings.Contains(s, "no signatures in commit"):
+		return "no-signatures"
+	case strings.Contains(s, "wrong Hash") || strings.Contains(s, "wrong PartSetHeader"):
+		return "blockid"
+	}
+	return "other:" + strings.ReplaceAll(s, " ", "_")
+}
+
 func classifyPanic(r interface{}) string {
 	s := fmt.Sprint(r)
 	switch {
@@ -357,6 +423,17 @@ func execCase(c core.Case) []string {
 			if len(f) > 0 && (f[0] == "full" || f[0] == "light" || f[0] == "trusting") {
 				if k := strings.IndexByte(o, '('); k > 0 {
 					o = o[:k]
+				}
+				verdictHist[f[0]+":"+o]++
+				if strings.HasPrefix(c.Kind, "huge-set") {
+					verdictHist[strings.SplitN(c.Kind, "/", 2)[0]+":"+f[0]+":"+o]++
+				}
+			} else if len(f) > 0 && (f[0] == "basic" || f[0] == "bid" || strings.Contains(c.Ops[i], "via=proto")) {
+				if strings.HasPrefix(o, "total=") {
+					o = "total"
+				}
+				if strings.HasPrefix(o, "proto-error:validator(") {
+					o = "proto-error:validator(" + o[strings.IndexByte(o, ',')+1:]
 				}
 				verdictHist[f[0]+":"+o]++
 			}
@@ -399,7 +476,7 @@ func execOps(c core.Case) []string {
 				dec, err := protoSet(v, tvp)
 				if err != nil {
 					vs = nil
-					out = append(out, "proto-error:"+strings.ReplaceAll(err.Error(), " ", "_"))
+					out = append(out, "proto-error:"+classifySetErr(err))
 					continue
 				}
 				vs = dec
@@ -423,12 +500,31 @@ func execOps(c core.Case) []string {
 				dec, err := protoCommit(cm)
 				if err != nil {
 					cm = nil
-					out = append(out, "proto-error:"+strings.ReplaceAll(err.Error(), " ", "_"))
+					out = append(out, "proto-error:"+classifyCommitErr(err))
 					continue
 				}
 				cm = dec
 			}
 			out = append(out, "ok")
+		case "basic":
+			if cm == nil || len(f) != 1 {
+				out = append(out, "bad-op")
+				continue
+			}
+			out = append(out, guarded(func() string {
+				if err := cm.ValidateBasic(); err != nil {
+					return "basic-error:" + classifyCommitErr(err)
+				}
+				return "ok"
+			}))
+		case "bid":
+			b, ok := parseBid(m["b"])
+			if !ok {
+				out = append(out, "bad-op")
+				continue
+			}
+			rb := b.real()
+			out = append(out, fmt.Sprintf("valid=%v zero=%v complete=%v", rb.ValidateBasic() == nil, rb.IsZero(), rb.IsComplete()))
 		case "full", "light":
 			b, ok := parseBid(m["bid"])
 			h, err := strconv.ParseInt(m["h"], 10, 64)
@@ -512,6 +608,10 @@ func oracle(c core.Case, out []string) []core.Finding {
 		m := kv(op)
 		switch f[0] {
 		case "vals":
+			if strings.HasPrefix(out[i], "proto-error") {
+				haveVals = false
+				continue
+			}
 			if v, ok := parseVals(m["v"]); ok {
 				vs, haveVals = v, true
 				lastFull = map[string]string{}
@@ -522,6 +622,10 @@ func oracle(c core.Case, out []string) []core.Finding {
 				}
 			}
 		case "commit":
+			if strings.HasPrefix(out[i], "proto-error") {
+				cm = nil
+				continue
+			}
 			if ci, ok := parseCommit(m); ok {
 				cm = &ci
 				lastFull = map[string]string{}
@@ -836,8 +940,16 @@ func genPowers(r *rand.Rand, n int) ([]int64, string) {
 			for i := range p {
 				p[i] = types.MaxTotalVotingPower/int64(n) + int64(1+r.Intn(5))
 			}
-			if r.Intn(2) == 0 {
+			switch r.Intn(3) {
+			case 0:
 				p[r.Intn(n)] = math.MaxInt64 - int64(r.Intn(3))
+			case 1: // exactly one above the maximum
+				rest := int64(0)
+				for i := 1; i < n; i++ {
+					p[i] = int64(1 + r.Intn(1000))
+					rest += p[i]
+				}
+				p[0] = types.MaxTotalVotingPower - rest + 1
 			}
 		case 1:
 			kind = "hostile-zero-power"
@@ -916,6 +1028,13 @@ func note(h map[string]int, k string) {
 	histMu.Unlock()
 }
 
+// forceN > 0 makes the next genCase use exactly that many validators (huge-set cases)
+var forceN int
+
+// forceClean (with forceN): 1 = genuine commit signed by everybody, 2 = genuine commit with the
+// signers chosen at the two-thirds line; no mutations, ordinary block id
+var forceClean int
+
 func genCase(r *rand.Rand, maxN int) core.Case {
 	n := 1 + r.Intn(maxN)
 	if r.Intn(5) != 0 && n > 7 {
@@ -923,6 +1042,9 @@ func genCase(r *rand.Rand, maxN int) core.Case {
 	}
 	if r.Intn(60) == 0 {
 		n = 0
+	}
+	if forceN > 0 {
+		n = forceN
 	}
 	keys := r.Perm(poolSize)[:n]
 	powers, pk := genPowers(r, n)
@@ -935,6 +1057,10 @@ func genCase(r *rand.Rand, maxN int) core.Case {
 		vs[r.Intn(n)].addr = poolAddr[keys[r.Intn(n)]]
 		note(mutHist, "valset-address-mismatch-or-duplicate")
 	}
+	if r.Intn(50) == 0 && n >= 1 { // validator whose address has the wrong size
+		vs[r.Intn(n)].addr = [][]byte{nil, {1, 2, 3}, bytes.Repeat([]byte{7}, 21)}[r.Intn(3)]
+		note(mutHist, "valset-address-wrong-size")
+	}
 	if r.Intn(4) != 0 {
 		vs = repoOrder(vs)
 	}
@@ -944,6 +1070,14 @@ func genCase(r *rand.Rand, maxN int) core.Case {
 	}
 	h := []int64{1, 2, 5, 1 << 40}[r.Intn(4)]
 	rd := int32(r.Intn(2))
+	switch r.Intn(30) { // heights / rounds Commit.ValidateBasic treats specially
+	case 0:
+		h = 0
+	case 1:
+		h = -1
+	case 2:
+		rd = -1
+	}
 	b := pickBid(r)
 	switch r.Intn(40) {
 	case 0:
@@ -953,11 +1087,23 @@ func genCase(r *rand.Rand, maxN int) core.Case {
 	case 2:
 		b = bid{hash: hash32(0xa1), total: 1} // empty part-set hash: valid, non-zero
 	}
+	if forceClean > 0 {
+		b = bidPool[r.Intn(len(bidPool))]
+		if h < 1 {
+			h = 1
+		}
+		if rd < 0 {
+			rd = 0
+		}
+	}
 
 	// who signs: random subsets, or a subset built to sit exactly at / just across the 2/3 line
 	pSign := []float64{0.34, 0.5, 0.67, 0.8, 1, 1}[r.Intn(6)]
+	if forceClean == 1 {
+		pSign = 1
+	}
 	signs := make([]bool, n)
-	if r.Intn(4) == 0 && n > 0 {
+	if (r.Intn(4) == 0 || forceClean == 2) && forceClean != 1 && n > 0 {
 		note(mutHist, "signers chosen at the two-thirds boundary")
 		total := bigTotal(vs)
 		acc := new(big.Int)
@@ -1000,17 +1146,20 @@ func genCase(r *rand.Rand, maxN int) core.Case {
 		}
 	}
 
-	if r.Intn(7) == 0 || (len(b.hash) == 0 && r.Intn(2) == 0) {
+	if forceClean == 0 && (r.Intn(7) == 0 || (len(b.hash) == 0 && r.Intn(2) == 0)) {
 		relabelSigned(r, slots, b)
 	}
 
 	// mutations of the property's quantifier
 	nm := []int{0, 0, 0, 0, 1, 1, 1, 2, 3}[r.Intn(9)]
+	if forceClean > 0 {
+		nm = 0
+	}
 	for k := 0; k < nm && len(slots) > 0; k++ {
 		i := r.Intn(len(slots))
 		s := &slots[i]
 		name := ""
-		switch r.Intn(22) {
+		switch r.Intn(26) {
 		case 0:
 			name = "flag:=nil (signature kept)"
 			s.flag = 3
@@ -1091,6 +1240,26 @@ func genCase(r *rand.Rand, maxN int) core.Case {
 		case 20:
 			name = "length-1"
 			slots = slots[:len(slots)-1]
+		case 22:
+			name = "absent slot carrying a signature"
+			s.flag = 1
+			if s.d.tag == "E" {
+				s.d = desc{tag: "J"}
+			}
+		case 23:
+			name = "absent slot carrying an address / a timestamp"
+			s.flag = 1
+			if r.Intn(2) == 0 {
+				s.addr = poolAddr[r.Intn(poolSize)]
+			} else {
+				s.ts = pickTS(r)
+			}
+		case 24:
+			name = "sig:=too long"
+			s.d = desc{tag: "L"}
+		case 25:
+			name = "non-absent slot with zero time"
+			s.ts = zeroTS
 		case 21:
 			name = "length+1 (extra copy / stranger)"
 			if r.Intn(2) == 0 {
@@ -1119,7 +1288,7 @@ func genCase(r *rand.Rand, maxN int) core.Case {
 
 	vopts, copts := "", ""
 	// the set / the commit as decoded from their protobuf forms (only when they decode on this tree)
-	if r.Intn(3) == 0 && protoSetOK(vs) {
+	if r.Intn(3) == 0 && (protoSetOK(vs) || r.Intn(3) == 0) {
 		vopts = " via=proto"
 		if r.Intn(4) != 0 { // a falsified total_voting_power on the wire
 			t := bigTotal(vs)
@@ -1129,11 +1298,26 @@ func genCase(r *rand.Rand, maxN int) core.Case {
 		}
 		note(mutHist, "set decoded from proto"+map[bool]string{true: " with falsified total", false: ""}[strings.Contains(vopts, "tvp")])
 	}
-	if r.Intn(3) == 0 && protoCommitOK(h, rd, b, slots) {
+	if r.Intn(3) == 0 && (protoCommitOK(h, rd, b, slots) || r.Intn(3) == 0) {
 		copts = " via=proto"
 		note(mutHist, "commit decoded from proto")
 	}
 	ops := []string{valsOp(vs) + vopts, commitOp(h, rd, b, slots) + copts}
+	if copts == "" && r.Intn(3) == 0 {
+		ops = append(ops, "basic")
+	}
+	if r.Intn(6) == 0 {
+		bb := pickBid(r)
+		switch r.Intn(6) {
+		case 0:
+			bb = bid{hash: []byte{1, 2, 3}, total: 1, pshash: hash32(0xb1)}
+		case 1:
+			bb = bid{hash: hash32(0xa1), total: 1, pshash: []byte{9}}
+		case 2:
+			bb = b
+		}
+		ops = append(ops, "bid b="+bb.String())
+	}
 	// full / light with matching and mismatching arguments
 	argChain, argBid, argH := chain, b, h
 	switch r.Intn(14) {
@@ -1247,6 +1431,9 @@ func genCase(r *rand.Rand, maxN int) core.Case {
 			ops = append(ops, fullOp(chain, b, h), lightOp(chain, b, h))
 		}
 	}
+	if forceN > 0 {
+		return core.Case{Kind: fmt.Sprintf("huge-set-%d/%s", forceN, pk), Ops: ops}
+	}
 	return core.Case{Kind: "commit/" + pk, Ops: ops}
 }
 
@@ -1285,7 +1472,14 @@ func pickFrac(r *rand.Rand, against *big.Int, tot *big.Int) (uint64, uint64, str
 		}
 		q := new(big.Int).Div(big.NewInt(math.MaxInt64), t)
 		q.Add(q, big.NewInt(int64(r.Intn(3)-1)))
-		return u(q), u(q) + uint64(r.Intn(3)), "num≈MaxInt64/total"
+		den := u(q) + uint64(r.Intn(3))
+		switch r.Intn(4) { // the product sits at the int64 edge whatever the denominator
+		case 0:
+			den = 1
+		case 1:
+			den = math.MaxInt64 - uint64(r.Intn(2))
+		}
+		return u(q), den, "num≈MaxInt64/total"
 	case 10:
 		return uint64(1<<63) + uint64(r.Intn(3)), uint64(1 + r.Intn(3)), "num≥2^63/small"
 	case 11:
@@ -1309,14 +1503,14 @@ func protoSet(vs []val, tvp *int64) (out *types.ValidatorSet, err error) {
 			err = fmt.Errorf("panic: %v", r)
 		}
 	}()
-	if len(vs) == 0 {
-		return nil, fmt.Errorf("empty")
-	}
 	tv := make([]*types.Validator, len(vs))
 	for i, x := range vs {
 		tv[i] = &types.Validator{Address: x.addr, PubKey: pool[x.key].PubKey(), VotingPower: x.power}
 	}
-	set := &types.ValidatorSet{Validators: tv, Proposer: tv[0]}
+	set := &types.ValidatorSet{Validators: tv}
+	if len(tv) > 0 {
+		set.Proposer = tv[0]
+	}
 	pb, err := set.ToProto()
 	if err != nil {
 		return nil, err
@@ -1512,8 +1706,19 @@ func main() {
 		Driver: "c07",
 		Gen: func(r *rand.Rand, tier string, emit func(core.Case)) {
 			n, maxN := 4500, 12
+			huge := []int{1500, 1500}
 			if tier == "thorough" {
-				n, maxN = 36000, 150
+				n, maxN = 30000, 150
+				// sets of MaxVotesCount validators (and one above), each with its own key
+				huge = []int{types.MaxVotesCount, types.MaxVotesCount, types.MaxVotesCount + 1, 2500}
+			}
+			for k, hn := range huge {
+				forceN = hn
+				if k < 2 {
+					forceClean = k + 1
+				}
+				emit(genCase(r, maxN))
+				forceN, forceClean = 0, 0
 			}
 			for i := 0; i < n; i++ {
 				emit(genCase(r, maxN))
@@ -1535,7 +1740,7 @@ func main() {
 			}
 			return false
 		},
-		Rule: "random validator sets (0..12 quick / 0..150 thorough validators, real ed25519 keys; equal, skewed, thirds-boundary, exactly-MaxTotalVotingPower, over-max, zero and negative powers; repo ordering or shuffled) with a commit built from real types.Commit/CommitSig whose slots are genuine signatures, nil votes or absent, then block ids of all four shapes (hash empty/non-empty x part-set header zero/non-zero) for the commit, the call and what was really signed; whole-commit relabellings (every for-block slot really signed NIL, nil-flagged slots really signed the block, signatures over a block id sharing only parts); then 0..3 mutations (flag, junk/empty/short/bit-flipped signature, signed over another chain/height/round/block/nil/timestamp/type/key, foreign or unknown address, duplicated slot, swap, length±1); the set and/or the commit optionally passed through ToProto -> wire bytes (with a falsified total_voting_power) -> FromProto; calls on ONE ValidatorSet object per `vals` line: VerifyCommit and VerifyCommitLight with matching or mismatching chain/block id/height, in shuffled order with repeats, then the same signature list relabelled to another height/round/block and verified again (and back, and with one slot changed); a stream of trusted sets LARGER than the commit whose slots are signed by members at low/middle/high positions with repeated signers, at the exact distinct-member level; VerifyCommitLightTrusting with fractions 1/3,2/3,1/2,1/1,0/1,x/0,3/2, exactly-at and just-below the boundary, numerator at the safeMul edge, parts >= 2^63, and again against an overlapping shuffled trusted set. Non-trivial = at least one verification call accepted; distinct by hash of the op list",
+		Rule: "random validator sets (0..12 quick / 0..150 thorough validators plus one 1500-validator set (quick) and sets of MaxVotesCount = 10000 and 10001 validators (thorough), one real ed25519 key per validator; equal, skewed, thirds-boundary, exactly-MaxTotalVotingPower, over-max, zero and negative powers; repo ordering or shuffled) with a commit built from real types.Commit/CommitSig whose slots are genuine signatures, nil votes or absent, then block ids of all four shapes (hash empty/non-empty x part-set header zero/non-zero) for the commit, the call and what was really signed; whole-commit relabellings (every for-block slot really signed NIL, nil-flagged slots really signed the block, signatures over a block id sharing only parts); then 0..3 mutations (flag, junk/empty/short/bit-flipped signature, signed over another chain/height/round/block/nil/timestamp/type/key, foreign or unknown address, duplicated slot, swap, length±1); the set and/or the commit optionally passed through ToProto -> wire bytes (with a falsified total_voting_power) -> FromProto; calls on ONE ValidatorSet object per `vals` line: VerifyCommit and VerifyCommitLight with matching or mismatching chain/block id/height, in shuffled order with repeats, then the same signature list relabelled to another height/round/block and verified again (and back, and with one slot changed); a stream of trusted sets LARGER than the commit whose slots are signed by members at low/middle/high positions with repeated signers, at the exact distinct-member level; VerifyCommitLightTrusting with fractions 1/3,2/3,1/2,1/1,0/1,x/0,3/2, exactly-at and just-below the boundary, numerator at the safeMul edge, parts >= 2^63, and again against an overlapping shuffled trusted set. Non-trivial = at least one verification call accepted; distinct by hash of the op list",
 		Assumptions: []string{
 			"ed25519 is modelled as a predicate sigOK(key, signBytes, sig); the stream describes each signature by what it was really made over and the driver's sigOK compares that with the sign-bytes record the model computes (so a canonical encoding that dropped a field would show as a disagreement and an oracle failure)",
 			"protobuf encoding of the canonical vote is not modelled: the sign-bytes record (type, height, round, canonical block id, timestamp, chain id) is assumed injectively encoded",
